@@ -1,7 +1,7 @@
 (* C16 — property theorems only. Each is closed by [exact] of a lemma of Proofs.v. *)
 From Coq Require Import List String NArith.
 From Verif Require Import Base.Util C16.Model C16.Proofs.
-From Verif Require C16.Manager C16.ManagerProofs C16.MCheck.
+From Verif Require C16.Manager C16.ManagerProofs C16.MCheck Reader.Model C16.ReaderTie.
 From Verif Require gen.Gen_average.
 Import ListNotations.
 Local Open Scope N_scope.
@@ -47,6 +47,17 @@ Theorem C16_manager_every_schedule : forall s t ls1 ls2,
   /\ (forall k, In k (map Manager.w_key (Manager.g_ws g2)) -> ~ In k (map fst (tbl (Manager.g_cm g2)))).
 Proof. exact ManagerProofs.manager_now. Qed.
 Print Assumptions C16_manager_every_schedule.
+
+(* the reader model of C01-C04 carries the manager's state and drives it only through this protocol (offers at StartReadCollection,
+   goroutine steps run to quiescence): in every reachable state of the reader model, for every history of collections started,
+   partitions added, packs fed, stops and drops, the channel assignment is one value per key, within quota, and a waiting handler's
+   key is unassigned *)
+Theorem C16_reader_mapping_every_history : forall retries ls,
+  let g := Verif.Reader.Model.mg (Verif.Reader.Model.run retries ls) in
+  functional (Manager.g_cm g) /\ quota_ok (Manager.g_cm g)
+  /\ (forall k, In k (map Manager.w_key (Manager.g_ws g)) -> ~ In k (map fst (tbl (Manager.g_cm g)))).
+Proof. exact Verif.C16.ReaderTie.reader_mapping_every_history. Qed.
+Print Assumptions C16_reader_mapping_every_history.
 
 (* the three earlier variants of the code do not have the property: the schedules were found by the check and replayed against
    the real code before the repairs 58caa9f, 5bb7150 and d23be7c *)
